@@ -239,7 +239,8 @@ impl MVars {
             last_commit_hash: v.last_commit_hash.clone(),
             last_timestamp: v.last_timestamp,
             last_tag_version: v.last_tag_version.clone(),
-            custom_json: if v.custom == serde_json::json!({}) { String::new() } else { v.custom.to_string() },
+            // `--source none` starts from Value::Null, stdin objects default to {}: both mean "no custom variables"
+            custom_json: if v.custom == serde_json::json!({}) || v.custom.is_null() { String::new() } else { v.custom.to_string() },
         }
     }
 }
